@@ -40,6 +40,8 @@ func coverQF(o *Obligation) *Obligation {
 const extraPreamble = `(declare-fun str_contains (Str Str) Bool)
 (declare-fun inrange (Iface Iface) Bool)
 (declare-fun sep_count (Slice) (_ BitVec 64))
+(declare-fun str_join_ (Int (_ BitVec 64) (_ BitVec 64) Str) Str)
+(define-fun str_join ((s Slice) (sep Str)) Str (str_join_ (sbase s) (soff s) (slen_ s) sep))
 `
 
 func (g *G) queryText(o *Obligation, withModel bool) string {
